@@ -90,6 +90,8 @@ def run(ctx):
                  "\t\t\t-0:44:30\t-\tMMT\t1972\tJan\t7\n\t\t\t0:00\t-\tGMT\n"
                  "Rule\tPX\t1960\tmax\t-\tApr\tSun>=1\t2:00:30\t1:00\tD\nRule\tPX\t1960\tmax\t-\tOct\tlastSun\t2:00\t0\tS\n"
                  "Zone\tTest/Seconds\t5:17:20\t-\tLMT\t1950\n\t\t\t5:17:20\tPX\tT%sT\t1985\n\t\t\t5:00\tPX\tT%sT\n"
+                 "Rule\tPY\t1960\tmax\t-\tApr\tSun>=1\t2:00\t1:00\tD\nRule\tPY\t1960\tmax\t-\tOct\tlastSun\t2:00\t0\tS\n"
+                 "Zone\tTest/Odd\t2:07:00\t-\tLMT\t1950\n\t\t\t2:07\tPY\tSAST\n"
                  "Link\tAfrica/Monrovia\tTest/Alias\n", 1965, 2000))
     jobs = []
     for label, src, sy, uy in srcs:
